@@ -356,6 +356,43 @@ func verifC13(c *drv.Ctx) {
 	}
 	rec(nil)
 	c.Set("cases", idx)
+	// many failing requests in quick succession: every one of them is reported (an error stream that
+	// thins itself out under load loses the account of what was not scanned)
+	for _, cmd := range []struct {
+		name string
+		args []string
+		n    int
+	}{
+		{"tcp-syn", []string{"tcp", "syn", "-p", "80", "10.0.2.0/23"}, 512},
+		{"udp", []string{"udp", "-p", "53,123", "10.0.2.0/24"}, 512},
+		{"icmp", []string{"icmp", "10.0.2.0/24"}, 256},
+	} {
+		idx++
+		if !c.Mine(idx) || c.Expired() {
+			continue
+		}
+		sc := &vE2ESpec{Args: append(append([]string{}, cmd.args...), "--json"), World: c13noGWWorld, Horizon: 20000000, Stdin: `{"ip":"10.0.9.9","mac":"02:00:00:00:00:99","vendor":""}` + "\n"}
+		r, x := vE2EOnce(sc)
+		c.Eval(1)
+		c.Nontrivial(1)
+		c.R.Transitions += int64(x.Steps)
+		name := fmt.Sprintf("%s with neither a gateway MAC nor cache entries for its %d targets", strings.Join(cmd.args, " "), cmd.n)
+		key := "many-errors:" + cmd.name
+		rep := map[string]any{"part": "c13", "args": sc.Args}
+		if _, err := vBasic(x); err != nil {
+			c.Fail(key+":crash", name+": "+err.Error(), rep)
+			continue
+		}
+		errs := r.vErrRecords()
+		switch {
+		case len(r.Frames) > 0:
+			c.Fail(key+":sent", fmt.Sprintf("%s: %d probes were sent although no destination MAC is known", name, len(r.Frames)), rep)
+		case len(errs) != cmd.n:
+			c.Fail(key+":count", fmt.Sprintf("%s: %d requests failed (one per target), %d error records were written", name, cmd.n, len(errs)), rep)
+		default:
+			c.Outcome(fmt.Sprintf("many-errors:%d", len(errs)))
+		}
+	}
 }
 
 func orOK(s string) string {
